@@ -53,7 +53,7 @@ func nameConforms(c *Ctx, pa *provAnalysis, format string, v ssa.Value) (bool, s
 		}
 		return true, "built from constants only"
 	}
-	if format == "apk" && p.has("const:.SIGN.RSA.%s") {
+	if format == "apk" && (p.has("const:.SIGN.RSA.%s") || p.has("const:.SIGN.RSA.")) {
 		return true, "signature member .SIGN.RSA.<key name> (C10)"
 	}
 	return false, fmt.Sprintf("derives from {%s} without passing the format's relative-name helper: the member could be absolute, unclean or named after its source", strings.Join(fields, ","))
